@@ -909,7 +909,7 @@ class ViewExpect:
 def apply_op(root, op, kept=None):
     """Execute one op with the public API. Returns extra expectations: {'view': (view, exp_start, exp_stop_fn)} or {}.
     Raises whatever pfst raises."""
-    opts = {'norm': True}
+    opts = {'norm': True, **op.get('options', {})}
     k = op['op']
     if k == 'kview':
         return apply_kview(root, op, kept if kept is not None else {})
@@ -982,6 +982,17 @@ def apply_op(root, op, kept=None):
                 getattr(f, fld)[st:sp].copy()
             else:
                 raise ValueError(how)
+        return {}
+    if k == 'move':
+        # cut a statement out and put the cut FST object back somewhere else (dedent + indent of live nodes)
+        tpath = tuple((n, i) for n, i in op['to'])
+        tgt = at_path(root.a, tpath).f
+        from fst import FST
+        with FST.options(**opts):
+            node = f.cut()
+            n = len(getattr(tgt.a, op['field']))
+            i = min(op['idx'], n)
+            tgt.put_slice(node, i, i, op['field'], one=True)
         return {}
     if k == 'raw_replace':
         f.replace(op['code'], raw=True)
@@ -1244,8 +1255,11 @@ FSTR_SHAPES = [
     "print(f'é{x[i]:{w}d}', f'ü{y.z(k)!a:^9}')",
     "x = f'{a}{b:>5}'",
     "x = f'ascii {-a:>5}'",
+    "x = f'{{{a=}}}'",
+    "x = f'é{ a = }'",
+    "x = f'x{a=}y{b = !r}z'",
 ]
-FSTR_CODES = ['bbb', 'q', 'ñé', 'f(1)', 'u.v[0]']
+FSTR_CODES = ['bbb', 'q', 'ñé', 'f(1)', 'u.v[0]', '{k: v}']
 
 
 def fstr_product():
@@ -1375,6 +1389,74 @@ def seq_layout_product():
                             if triv is not None:
                                 op['trivia'] = triv
                             out.append((src, [{'pre': pre, 'op': op}]))
+    return out
+
+
+# string statements whose VALUE depends on the indentation of their continuation lines, put into / moved between blocks
+# of every depth and indentation style: the Constant values (docstring lookup, dump) must be those of a fresh parse
+DOC_CODES = [
+    'def g():\n    "one line"\n    pass',
+    'def g():\n    """multi\n    line\n      deeper\n    """\n    pass',
+    'def g():\n    "cont\\\n    inued"\n    pass',
+    'def g():\n    """cont\\\n    inued"""\n    return 1',
+    'class G:\n    \'\'\'cls \\\n    doc\'\'\'\n    def m(self):\n        "m\\\n        doc"\n',
+    '"bare cont\\\n  inued"',
+    'x = 1\n"""not first\\\n  string"""\ny = 2',
+    'def g():\n    r"""raw\\\n    cont"""',
+    'def g():\n    u"é cont\\\n    ü"\n    "second\\\n    string"',
+    'def g():\n    """a\\\n    b\n    c\\\n    d"""',
+    'def g():\n    x = "assigned\\\n    cont"\n    return x',
+    'async def g():\n    """doc"""  # c\n    "cont\\\n    2"  # d\n',
+    'def g():\n    b"bytes\\\n    cont"\n    pass',
+    'def g():\n    f"f{a}\\\n    cont"\n    pass',
+    'def g():\n    ("par\\\n    cont")\n    pass',
+]
+DOC_TARGETS = [
+    ('if a:\n    pass\n', [['body', 0]]),
+    ('class K:\n  def m(self):\n    if x:\n      pass\n', [['body', 0], ['body', 0], ['body', 0]]),
+    ('def f():\n\tpass\n', [['body', 0]]),
+    ('pass\n', []),
+    ('try:\n    pass\nfinally:\n        pass\n', [['body', 0]]),
+    ('while t:\n   for i in j:\n      pass\n', [['body', 0], ['body', 0]]),
+]
+DOC_MOVES = [
+    ('class K:\n    def m(self):\n        "cont\\\n        inued"\n        return 1\n\n    x = 1\nafter = 2\n',
+     [['body', 0], ['body', 0]], [([], 'body', 1), ([], 'body', 0), ([['body', 0]], 'body', 2)]),
+    ('def f():\n    if a:\n        def g():\n            """cont\\\n            inued"""\n        y\n    z\n',
+     [['body', 0], ['body', 0], ['body', 0]], [([], 'body', 1), ([['body', 0]], 'body', 2), ([['body', 0], ['body', 0]], 'body', 2)]),
+    ('if a:\n  "cont\\\n  inued"\n  b\nelif c:\n  """c2\\\n  d2"""\n  d\n', [['body', 0], ['body', 0]], [([], 'body', 1), ([['body', 0]], 'orelse', 1)]),
+]
+
+
+def docstr_product():
+    out = []
+    for tsrc, tpath in DOC_TARGETS:
+        tree = ast.parse(tsrc)
+        pre = [[list(map(list, p)), q] for p, _ in enum_nodes(tree) for q in ('loc', 'bloc', 'src', 'own_src', 'docstr', 'links', 'views')]
+        for code in DOC_CODES:
+            for docstr in (None, True, 'strict', False):
+                o = {} if docstr is None else {'options': {'docstr': docstr}}
+                base = {'path': tpath, 'field': 'body', **o}
+                ops = [{'op': 'append', 'code': code, **base}, {'op': 'insert', 'idx': 0, 'code': code, **base},
+                       {'op': 'put_slice', 'start': 0, 'stop': 1, 'code': code, **base},
+                       {'op': 'replace', 'path': tpath + [['body', 0]], 'code': code, **o}]
+                for op in ops:
+                    out.append((tsrc, [{'pre': pre, 'op': op}]))
+    for src, spath, dests in DOC_MOVES:
+        tree = ast.parse(src)
+        pre = [[list(map(list, p)), q] for p, _ in enum_nodes(tree) for q in ('loc', 'bloc', 'src', 'own_src', 'docstr', 'links', 'views')]
+        for to, fld, idx in dests:
+            for docstr in (None, True, 'strict', False):
+                o = {} if docstr is None else {'options': {'docstr': docstr}}
+                out.append((src, [{'pre': pre, 'op': {'op': 'move', 'path': spath, 'to': to, 'field': fld, 'idx': idx, **o}}]))
+        # elif -> else: if conversion re-indents a live subtree
+        out.append((src, [{'pre': pre, 'op': {'op': 'append', 'path': [], 'field': 'body', 'code': 'zz'}}]))
+    src = 'if a:\n  b\nelif c:\n  """c2\\\n  d2"""\n  "x\\\n  y"\n'
+    tree = ast.parse(src)
+    pre = [[list(map(list, p)), q] for p, _ in enum_nodes(tree) for q in ('loc', 'bloc', 'src', 'own_src', 'docstr')]
+    for op in ({'op': 'insert', 'path': [['body', 0]], 'field': 'orelse', 'idx': 0, 'code': 'pass'},
+               {'op': 'append', 'path': [['body', 0]], 'field': 'orelse', 'code': 'pass'}):
+        out.append((src, [{'pre': pre, 'op': op}]))
     return out
 
 
